@@ -196,6 +196,11 @@ def activations(log, invid='inv', state='s0', prole='parent', pqueue='X0'):
         i_ret = i_aun if i_aun is not None else i_destroyed
         i_begun = min([x for x in (i_bun, i_stop) if x is not None], default=None)
         enq = [(k, pt.replace('q.enq/' + pqueue + '/', 'q.enq/X0/', 1)) for k, (role, pt) in enumerate(seg) if role == role_c and pt.startswith('q.enq/' + pqueue + '/')]
+        # "started when a macrostep ENDS with the state active": the invocation is started in the first such macrostep, i.e.
+        # before the first stable-configuration notice after the state was entered
+        i_binv = idx(lambda r, p: r == 'parent' and p == 'mon.binv/' + invid)
+        i_stab = idx(lambda r, p: r == 'parent' and p == 'mon.stable')
+        o['late'] = i_binv is not None and i_stab is not None and i_stab < i_binv and (left is None or i_stab < left - base)
         o['done'] = sum(1 for k, pt in enq if pt == 'q.enq/X0/done.invoke.' + invid)
         o['alone'] = any(role == role_c and pt == 'mon.enter/cf' for role, pt in seg)
         o['before_done'] = any(role == role_c and pt == 'invoker.run.before_done' for role, pt in seg)
@@ -705,6 +710,10 @@ def run(c):
                     cls = 'protocol'
                 viol.append((cls + ':' + key['engine'], dict(base, activation=ai, observed=o, expected='invoke_protocolb = true',
                                                               what='oracle invoke_protocolb rejects the observed behaviour of activation %d' % ai)))
+        for ai, o in enumerate(obs):
+            if o.get('late'):
+                viol.append(('invoke-started-late:' + key['engine'], dict(base, activation=ai, observed=o,
+                             what='a macrostep ended with the invoking state active and the invocation was only started in a later macrostep (activation %d)' % ai)))
         if key['finalize']:
             bad, nfin = finalize_ok(lg)
             if bad:
